@@ -359,6 +359,9 @@ def run(cx, rep):
     # ---------------------------------------------------------------- C03.10
     rep.rule("C03.10", "parseAfterValidation(): every element of an array-valued constructor argument is accounted for (no fixed-size prefix)")
     ts_common.truncation_rule(cx, rep, "C03.10", ['parseAfterValidation'])
+    # ---------------------------------------------------------------- C03.11
+    rep.rule("C03.11", "no call is handed one argument per element of an input-sized array (spread in call position)")
+    ts_common.unbounded_spread_rule(cx, rep, "C03.11", ['validate', 'parseAfterValidation', 'reportDecodeError'])
     # ---------------------------------------------------------------- C03.9
     rep.rule("C03.9", "parseAfterValidation delegates a value to a member only if validate() sent it through that member")
     accept_guard_rule(fam, mod, rep, "C03.9")
